@@ -37,7 +37,7 @@ def simulate_rise(connection, parameters, outfile, observations_only):
     )
     if observations_only:
         outfile.write('# Rise curve simulation vector\n')
-        yaml.dump(W_mm.tolist(), outfile)
+        dump_observation_vector(W_mm.tolist(), outfile)
     else:
         yaml.dump(
             (
@@ -59,6 +59,30 @@ def simulate_rise(connection, parameters, outfile, observations_only):
             ),
             outfile,
         )
+
+
+# Columns read by the PEST instruction files ("l1 [eN]3:24")
+OBSERVATION_FIELD_WIDTH = 22
+
+
+def dump_observation_vector(values, outfile):
+    """Write a vector of simulated values as a YAML sequence
+
+    Each value follows "- " and must fit in the fixed-width field
+    that the PEST instruction files read.  The shortest text that
+    reads back as the same float can take up to 24 characters
+    (-1.6653345369377348e-16), in which case the text would be cut
+    short and misread; such values are written with as many
+    significant digits as fit in the field instead.
+
+    """
+    for value in values:
+        text = yaml.safe_dump(float(value)).split()[0]
+        digits = 16
+        while len(text) > OBSERVATION_FIELD_WIDTH and digits > 0:
+            digits -= 1
+            text = '{{:.{}e}}'.format(digits).format(value)
+        outfile.write('- {}\n'.format(text))
 
 
 def compute_rise_curve(specific_yield, zeta_grid_mm, mean_storage_mm=0.0):
